@@ -8,6 +8,16 @@ import (
 // BuildScenario draws the plan of one run for the property under check.
 func BuildScenario(prop, tier string, ch *Chooser, lean bool, s *Sim) (Scenario, string) {
 	switch prop {
+	case "C19", "C20":
+		d := DrawDir(prop, tier, ch, lean, s)
+		return d, d.Describe()
+	case "C15":
+		if ch.Choose(3) == 2 {
+			d := DrawDir(prop, tier, ch, lean, s)
+			return d, d.Describe()
+		}
+		c := DrawCore(prop, tier, ch, lean, s)
+		return c, c.Describe()
 	default:
 		if prop == "C05" {
 			s.MaxSteps = 60000
@@ -59,6 +69,10 @@ func Nontrivial(prop string, s *Sim) bool {
 		return c != nil && c.stopCalls > 0
 	case "C17":
 		return p["C17-ready-observed-true"] > 0 || (c != nil && c.runErr != "")
+	case "C19":
+		return p["C19-bind"] > 0
+	case "C20":
+		return p["C20-add"]+p["C20-delete"]+p["C20-modify"]+p["C20-search"] > 0
 	case "C13":
 		return p["C13-starttls-session"] > 0
 	case "C18":
@@ -76,6 +90,9 @@ func Nontrivial(prop string, s *Sim) bool {
 			n += v
 		}
 		return n > 0
+	}
+	if d, ok := s.sc.(*Dir); ok {
+		return d.opsDone > 0
 	}
 	if c != nil {
 		for _, q := range c.reqs {
